@@ -1,12 +1,853 @@
-//! C15 — (stub: no ops yet)
+//! C15 — LDA rescoring: `Gauss::solve`, `LinearDiscriminantAnalysis::train/score`, `score_psms`
+//! and the heuristic fallback of `Runner::spectrum_fdr`.
+//!
+//!   gauss n m A[n*n f64] B[n*m f64]                         ->  0 | 1 X[n*m f64]
+//!   lda n p F[n*p f64] decoy[n 0/1] perm[n]                  ->  W W'   with W = 0 | 1 p w[p f64]
+//!        W  = train(F, decoy) read back through `score(identity)`,
+//!        W' = the same for the rows (and labels) taken in the order `perm`
+//!   scorepsms n (21 fields)*n                                ->  fitted n (score:f32 ln1p:f32 pe:f64 l1..l8:f64)*n
+//!        fields: label(1/-1) rank charge hyperscore:f64 delta_next:f64 delta_best:f64 delta_mass:f32
+//!                isotope_error:f32 average_ppm:f32 poisson:f64 matched_intensity_pct:f32 matched_peaks
+//!                longest_b longest_y peptide_len missed_cleavages aligned_rt:f32 ims:f32
+//!                delta_rt_model:f32 delta_ims_model:f32 longest_y_pct:f32
+//!        runs `score_psms(.., Ppm(-10,10))`; when it returns None the harness applies the fallback
+//!        expression of `Runner::spectrum_fdr` (sage-cli is a binary crate: the expression is
+//!        re-stated here and its presence in runner.rs is asserted on the source text);
+//!        `ln1p` = `(-poisson as f32).ln_1p()` as computed by Rust, passed to the model as data; `pe` = the
+//!        KDE mass-error posterior (feature 5) and `l1..l8` = the f64 `ln_1p` of hyperscore, delta_next,
+//!        delta_best, -poisson, matched_intensity_pct, longest_b, longest_y, peptide_len: data for the model's
+//!        reconstruction of the 20-column feature matrix (everything else of score_psms is modelled).
+//! All floats are bit patterns; every NaN is canonicalised to the quiet NaN 0x7ff8000000000000.
 use super::Info;
-use crate::proto::{Case, Rng, Tier, Toks};
+use crate::proto::{Case, Out, Rng, Tier, Toks};
+use sage_core::mass::Tolerance;
+use sage_core::ml::gauss::Gauss;
+use sage_core::ml::linear_discriminant::{score_psms, LinearDiscriminantAnalysis};
+use sage_core::ml::matrix::Matrix;
 
-pub const OPS: &[&str] = &[];
-pub const INFO: Info = Info { rule: "", serial: false };
+pub const OPS: &[&str] = &["gauss", "lda", "scorepsms"];
+pub const INFO: Info = Info {
+    rule: "gauss: n<=6 (quick) / 10 (thorough) systems with A = random SPD (G'G + dI), nearly singular PSD \
+           (G'G, rank r<n, float-rounded), exactly singular PSD (small integers), diagonal / zero rows, \
+           ill-scaled (D A D with D = diag(10^k), k in -6..9, and the repaired witness [[1e9,-1e9],[-1e9,1e9]],[1,2]), \
+           ill-conditioned Hilbert-like; B random, m in 1..3 or m = n; non-trivial = A non-zero and n >= 2. \
+           lda: n<=30 (quick) / 200 (thorough) rows, p<=5 (quick) / 8 features drawn as class mean + noise + a common offset, \
+           variants: well-conditioned, constant column, class-wise constant column, collinear columns, column scales 10^k, \
+           single-row class, one class empty, duplicated rows, -0.0 entries; row order: identity, random permutations, and ALL \
+           permutations for n <= 4 (quick) / 6 (thorough); non-trivial = both classes present and p >= 2. \
+           scorepsms: 1..80 (quick) / 400 PSM feature records with realistic ranges (finite poisson <= 0), large and small sets, \
+           constant charge/rank columns, ion mobility present or all zero, two decoys only; variants that must fall back: one class empty, \
+           NaN/inf in one field, ln_1p argument below -1, all records identical, single decoy (KDE bandwidth 0); non-trivial = both classes present. \
+           Default-on small streams of the known-finding families (exactly singular PSD x 1e9/1e12; overall mean orthogonal to the class-mean \
+           difference; all features of order 1e-9) and of two observation families (block-diagonal SPD: spurious solver failure; forced \
+           fallback with poisson = -inf)",
+    serial: false,
+};
 
-pub fn gen(_rng: &mut Rng, _tier: Tier, _emit: &mut dyn FnMut(Case)) {}
+const QNAN: u64 = 0x7ff8_0000_0000_0000;
+const QNAN32: u32 = 0x7fc0_0000;
 
-pub fn exec(_op: &str, _t: &mut Toks) -> Option<String> {
-    None
+fn put64(o: &mut Out, x: f64) {
+    if x.is_nan() {
+        o.n(QNAN);
+    } else {
+        o.f64(x);
+    }
+}
+fn put32(o: &mut Out, x: f32) {
+    if x.is_nan() {
+        o.n(QNAN32);
+    } else {
+        o.f32(x);
+    }
+}
+
+// ------------------------------------------------------------------------------------------ exec
+
+fn exec_gauss(t: &mut Toks) -> Option<String> {
+    let n = t.usize()?;
+    let m = t.usize()?;
+    if n > 64 || m > 64 {
+        return None;
+    }
+    let mut a = Vec::with_capacity(n * n);
+    for _ in 0..n * n {
+        a.push(t.f64()?);
+    }
+    let mut b = Vec::with_capacity(n * m);
+    for _ in 0..n * m {
+        b.push(t.f64()?);
+    }
+    if !t.done() {
+        return None;
+    }
+    let left = Matrix::new(a, n, n);
+    let right = Matrix::new(b, n, m);
+    let mut o = Out::new();
+    match Gauss::solve(left, right) {
+        None => {
+            o.n(0);
+        }
+        Some(x) => {
+            if x.rows != n || x.cols != m {
+                return Some("err:shape".into());
+            }
+            o.n(1);
+            for v in x.take() {
+                put64(&mut o, v);
+            }
+        }
+    }
+    Some(o.finish())
+}
+
+fn train_dir(o: &mut Out, feats: &[f64], n: usize, p: usize, decoy: &[bool]) {
+    let f = Matrix::new(feats.to_vec(), n, p);
+    match LinearDiscriminantAnalysis::train(&f, decoy) {
+        None => {
+            o.n(0);
+        }
+        Some(lda) => {
+            // the eigenvector is private: score the p unit vectors one at a time (a 1 x p matrix
+            // with a single 1.0 gives 0.0 + 0*w_0 + .. + 1*w_i + .., exact for finite w; a
+            // non-finite entry anywhere makes every read NaN, which is reported as such)
+            let all = lda.score(&Matrix::identity(p));
+            let nonfinite = all.iter().any(|x| !x.is_finite());
+            o.n(1).n(p);
+            for v in all {
+                if nonfinite {
+                    o.n(QNAN);
+                } else {
+                    put64(o, v);
+                }
+            }
+        }
+    }
+}
+
+fn exec_lda(t: &mut Toks) -> Option<String> {
+    let n = t.usize()?;
+    let p = t.usize()?;
+    if n > 4096 || p > 64 {
+        return None;
+    }
+    let mut f = Vec::with_capacity(n * p);
+    for _ in 0..n * p {
+        f.push(t.f64()?);
+    }
+    let mut decoy = Vec::with_capacity(n);
+    for _ in 0..n {
+        decoy.push(t.bool()?);
+    }
+    let mut perm = Vec::with_capacity(n);
+    for _ in 0..n {
+        let k = t.usize()?;
+        if k >= n {
+            return None;
+        }
+        perm.push(k);
+    }
+    if !t.done() {
+        return None;
+    }
+    let mut o = Out::new();
+    train_dir(&mut o, &f, n, p, &decoy);
+    let mut f2 = Vec::with_capacity(n * p);
+    let mut d2 = Vec::with_capacity(n);
+    for &k in &perm {
+        f2.extend_from_slice(&f[k * p..(k + 1) * p]);
+        d2.push(decoy[k]);
+    }
+    train_dir(&mut o, &f2, n, p, &d2);
+    Some(o.finish())
+}
+
+const RUNNER_SRC: &str = include_str!("/repo/crates/sage-cli/src/runner.rs");
+const FALLBACK_EXPR: &str =
+    "feat.discriminant_score = (-feat.poisson as f32).ln_1p() + feat.longest_y_pct / 3.0";
+
+fn exec_scorepsms(t: &mut Toks) -> Option<String> {
+    let n = t.usize()?;
+    if n > 100_000 {
+        return None;
+    }
+    let mut feats = Vec::with_capacity(n);
+    for i in 0..n {
+        let mut f = super::util::blank_feature();
+        f.psm_id = i;
+        f.label = t.i64()? as i32;
+        f.rank = t.usize()? as u32;
+        f.charge = t.usize()? as u8;
+        f.hyperscore = t.f64()?;
+        f.delta_next = t.f64()?;
+        f.delta_best = t.f64()?;
+        f.delta_mass = t.f32()?;
+        f.isotope_error = t.f32()?;
+        f.average_ppm = t.f32()?;
+        f.poisson = t.f64()?;
+        f.matched_intensity_pct = t.f32()?;
+        f.matched_peaks = t.usize()? as u32;
+        f.longest_b = t.usize()? as u32;
+        f.longest_y = t.usize()? as u32;
+        f.peptide_len = t.usize()?;
+        f.missed_cleavages = t.usize()? as u8;
+        f.aligned_rt = t.f32()?;
+        f.ims = t.f32()?;
+        f.delta_rt_model = t.f32()?;
+        f.delta_ims_model = t.f32()?;
+        f.longest_y_pct = t.f32()?;
+        feats.push(f);
+    }
+    if !t.done() {
+        return None;
+    }
+    // tie to the source text of the fallback (Runner::spectrum_fdr is private to a binary crate)
+    let squeezed: String = RUNNER_SRC.split_whitespace().collect::<Vec<_>>().join(" ");
+    if !squeezed.contains(FALLBACK_EXPR) || !squeezed.contains("score_psms(features, self.parameters.precursor_tol) .is_none()") {
+        return Some("err:fallback_source_changed".into());
+    }
+    // values of the transcendental / KDE parts of the feature transform, handed to the model as DATA
+    // (computed here through the same public functions score_psms uses, with the arguments it uses
+    // for a Ppm(-10, 10) tolerance: bw_adjust = 2x, bins = max(hi - lo, 100) = 100, not monotonic)
+    let decoys: Vec<bool> = feats.iter().map(|f| f.label == -1).collect();
+    let dm: Vec<f64> = feats.iter().map(|f| f.delta_mass as f64).collect();
+    let est = sage_core::ml::kde::Builder::default()
+        .monotonic(false)
+        .bw_adjust(|x| x * 2.0)
+        .bins(100)
+        .build(&dm, &decoys);
+    let aux: Vec<[f64; 9]> = feats
+        .iter()
+        .zip(&dm)
+        .map(|(f, &x)| {
+            [
+                est.posterior_error(x),
+                f.hyperscore.ln_1p(),
+                f.delta_next.ln_1p(),
+                f.delta_best.ln_1p(),
+                (-f.poisson).ln_1p(),
+                (f.matched_intensity_pct as f64).ln_1p(),
+                (f.longest_b as f64).ln_1p(),
+                (f.longest_y as f64).ln_1p(),
+                (f.peptide_len as f64).ln_1p(),
+            ]
+        })
+        .collect();
+    let fitted = score_psms(&mut feats, Tolerance::Ppm(-10.0, 10.0)).is_some();
+    if !fitted {
+        for feat in feats.iter_mut() {
+            feat.discriminant_score = (-feat.poisson as f32).ln_1p() + feat.longest_y_pct / 3.0;
+        }
+    }
+    let mut o = Out::new();
+    o.b(fitted).n(n);
+    for (feat, a) in feats.iter().zip(&aux) {
+        put32(&mut o, feat.discriminant_score);
+        put32(&mut o, (-feat.poisson as f32).ln_1p());
+        for &v in a {
+            put64(&mut o, v);
+        }
+    }
+    Some(o.finish())
+}
+
+pub fn exec(op: &str, t: &mut Toks) -> Option<String> {
+    match op {
+        "gauss" => exec_gauss(t),
+        "lda" => exec_lda(t),
+        "scorepsms" => exec_scorepsms(t),
+        _ => None,
+    }
+}
+
+// ------------------------------------------------------------------------------------------- gen
+
+/// roughly normal(0,1)
+fn gauss01(rng: &mut Rng) -> f64 {
+    let mut s = 0.0;
+    for _ in 0..6 {
+        s += rng.unit();
+    }
+    (s - 3.0) * std::f64::consts::SQRT_2
+}
+
+/// keep `bits` fractional bits (keeps the exact-rational oracle cheap for part of the stream)
+fn quant(x: f64, bits: i32) -> f64 {
+    let s = (2.0f64).powi(bits);
+    (x * s).round() / s
+}
+
+fn req_gauss(n: usize, m: usize, a: &[f64], b: &[f64]) -> String {
+    let mut o = Out::new();
+    o.raw("gauss").n(n).n(m);
+    for &x in a {
+        o.f64(x);
+    }
+    for &x in b {
+        o.f64(x);
+    }
+    o.finish()
+}
+
+/// G'G (+ d on the diagonal) for a random r x n matrix G
+fn gram(rng: &mut Rng, n: usize, r: usize, d: f64, integer: bool) -> Vec<f64> {
+    let g: Vec<f64> = (0..r * n)
+        .map(|_| if integer { rng.range(-3, 3) as f64 } else { quant(gauss01(rng), 20) })
+        .collect();
+    let mut a = vec![0.0; n * n];
+    for i in 0..n {
+        for j in 0..n {
+            let mut s = 0.0;
+            for k in 0..r {
+                s += g[k * n + i] * g[k * n + j];
+            }
+            a[i * n + j] = s + if i == j { d } else { 0.0 };
+        }
+    }
+    a
+}
+
+fn rand_rhs(rng: &mut Rng, n: usize, m: usize, integer: bool) -> Vec<f64> {
+    (0..n * m)
+        .map(|_| if integer { rng.range(-4, 4) as f64 } else { quant(gauss01(rng) * 3.0, 24) })
+        .collect()
+}
+
+fn gen_gauss(rng: &mut Rng, tier: Tier, emit: &mut dyn FnMut(Case)) {
+    let quick = tier == Tier::Quick;
+    let nmax = if quick { 6 } else { 10 };
+    // directed
+    let w = [1e9, -1e9, -1e9, 1e9];
+    emit(Case::new(req_gauss(2, 1, &w, &[1.0, 2.0])).tag("gauss").tag("witness-1e9-fixed"));
+    emit(Case::new(req_gauss(2, 1, &[1e9, 1e9, 1e9, 1e9], &[1.0, 2.0])).tag("gauss").tag("ill-scaled-singular"));
+    emit(Case::new(req_gauss(2, 2, &[1.0, 0.0, 0.0, 1.0], &[1.0, 2.0, 3.0, 4.0])).tag("gauss").tag("identity"));
+    emit(Case::new(req_gauss(2, 1, &[0.0, 0.0, 0.0, 0.0], &[1.0, 2.0])).tag("gauss").tag("zero-matrix").nontrivial(false));
+    emit(Case::new(req_gauss(1, 1, &[0.0], &[1.0])).tag("gauss").tag("zero-matrix").nontrivial(false));
+    emit(Case::new(req_gauss(1, 1, &[4.0], &[2.0])).tag("gauss").tag("1x1").nontrivial(false));
+    emit(Case::new(req_gauss(0, 0, &[], &[])).tag("gauss").tag("empty").nontrivial(false));
+    emit(Case::new(req_gauss(2, 1, &[1.0, 0.0, 0.0, 0.0], &[1.0, 5.0])).tag("gauss").tag("singular-diagonal"));
+    emit(Case::new(req_gauss(3, 1, &[2.0, 1.0, 0.0, 1.0, 2.0, 1.0, 0.0, 1.0, 2.0], &[1.0, 0.0, 1.0])).tag("gauss").tag("spd"));
+    emit(Case::new(req_gauss(2, 1, &[1.0, 1.0, 1.0, 1.0], &[1.0, 1.0])).tag("gauss").tag("singular-consistent"));
+    emit(Case::new(req_gauss(2, 1, &[1.0, 1.0, 1.0, 1.0], &[1.0, -1.0])).tag("gauss").tag("singular-inconsistent"));
+    // a diagonal larger than its pivot column neighbour in magnitude but negative off-diagonals
+    emit(Case::new(req_gauss(2, 1, &[1.0, -10.0, -10.0, 101.0], &[1.0, 1.0])).tag("gauss").tag("spd"));
+    // tiny scale: everything below the regulariser
+    emit(Case::new(req_gauss(2, 1, &[1e-12, 5e-13, 5e-13, 1e-12], &[1e-12, 2e-12])).tag("gauss").tag("tiny-scale"));
+
+    // outside the property's quantifier (not symmetric PSD): model agreement only, spec `na`
+    emit(Case::new(req_gauss(2, 1, &[-1e-8, 1.0, -1.0, 1.0], &[1.0, 2.0])).tag("gauss").tag("non-psd").tag("column-skip-quirk"));
+    emit(Case::new(req_gauss(3, 1, &[1.0, 0.0, 0.0, 0.0, -1e-8, 1.0, 0.0, -1.0, 1.0], &[1.0, 2.0, 3.0])).tag("gauss").tag("non-psd").tag("column-skip-quirk"));
+    emit(Case::new(req_gauss(2, 1, &[1.0, 0.0, 0.0, -1e-8], &[1.0, 5.0])).tag("gauss").tag("non-psd").tag("zero-row-accepted"));
+    emit(Case::new(req_gauss(2, 1, &[f64::NAN, 1.0, 1.0, 2.0], &[1.0, 2.0])).tag("gauss").tag("non-finite-input").nontrivial(false));
+    emit(Case::new(req_gauss(2, 1, &[1.0, f64::NAN, f64::NAN, 2.0], &[1.0, 2.0])).tag("gauss").tag("non-finite-input").nontrivial(false));
+    emit(Case::new(req_gauss(2, 1, &[1.0, 0.5, 0.5, 2.0], &[f64::INFINITY, 2.0])).tag("gauss").tag("non-finite-input").nontrivial(false));
+    emit(Case::new(req_gauss(3, 1, &[2.0, f64::NEG_INFINITY, 0.0, f64::NEG_INFINITY, 2.0, 0.0, 0.0, 0.0, 1.0], &[1.0, 2.0, 3.0])).tag("gauss").tag("non-finite-input").nontrivial(false));
+    emit(Case::new(req_gauss(2, 1, &[1e200, 1e200, 1e200, 3e200], &[1e200, 1.0])).tag("gauss").tag("huge-scale"));
+
+    let reps = if quick { 60 } else { 1500 };
+    for _ in 0..reps {
+        // general (non-symmetric / indefinite) systems: row swaps, negative pivots
+        {
+            let n = 1 + rng.below(nmax.min(6));
+            let integer = rng.chance(1, 2);
+            let a: Vec<f64> = (0..n * n).map(|_| if integer { rng.range(-3, 3) as f64 } else { quant(gauss01(rng), 12) }).collect();
+            let b = rand_rhs(rng, n, 1, integer);
+            emit(Case::new(req_gauss(n, 1, &a, &b)).tag("gauss").tag("non-psd").tag("general-nonsymmetric").nontrivial(n >= 2));
+        }
+        let n = 1 + rng.below(nmax);
+        let m = if rng.chance(1, 4) { n } else { 1 + rng.below(3) };
+        // SPD
+        let d = *rng.pick(&[1.0, 0.1, 1e-3, 1e-6]);
+        let r0 = n + rng.below(3);
+        let a = gram(rng, n, r0, d, false);
+        let b = rand_rhs(rng, n, m, false);
+        emit(Case::new(req_gauss(n, m, &a, &b)).tag("gauss").tag("spd").nontrivial(n >= 2));
+        // nearly singular PSD (rank r < n, float rounded)
+        if n >= 2 {
+            let r = 1 + rng.below(n - 1);
+            let a = gram(rng, n, r, 0.0, false);
+            let b = rand_rhs(rng, n, m, false);
+            emit(Case::new(req_gauss(n, m, &a, &b)).tag("gauss").tag("psd-rank-deficient"));
+            // exactly singular (integers)
+            let a = gram(rng, n, r, 0.0, true);
+            let b = rand_rhs(rng, n, m, true);
+            emit(Case::new(req_gauss(n, m, &a, &b)).tag("gauss").tag("psd-singular-exact"));
+            // exactly singular, consistent right-hand side B = A Y
+            let y = rand_rhs(rng, n, m, true);
+            let mut b2 = vec![0.0; n * m];
+            for i in 0..n {
+                for c in 0..m {
+                    for k in 0..n {
+                        b2[i * m + c] += a[i * n + k] * y[k * m + c];
+                    }
+                }
+            }
+            emit(Case::new(req_gauss(n, m, &a, &b2)).tag("gauss").tag("psd-singular-consistent"));
+        }
+        // ill-scaled D A D
+        let d0 = *rng.pick(&[1.0, 1e-2, 0.0]);
+        let int0 = rng.chance(1, 3);
+        let base = gram(rng, n, n + 1, d0, int0);
+        let ds: Vec<f64> = (0..n).map(|_| 10f64.powi(rng.range(-6, 9) as i32)).collect();
+        let mut a = base.clone();
+        for i in 0..n {
+            for j in i..n {
+                a[i * n + j] = base[i * n + j] * ds[i] * ds[j];
+                a[j * n + i] = a[i * n + j];
+            }
+        }
+        let b = rand_rhs(rng, n, m, false);
+        emit(Case::new(req_gauss(n, m, &a, &b)).tag("gauss").tag("ill-scaled").nontrivial(n >= 2));
+        // uniformly large / small scale
+        // (exactly singular at 1e9 / 1e12 is the known finding C15-silently-wrong-singular-illscaled)
+        let r1 = if rng.chance(1, 2) { n } else { 1.max(n - 1) };
+        let s = *rng.pick(&[1e9, 1e12, 1e-9, 1e5]);
+        let a: Vec<f64> = gram(rng, n, r1, 0.0, true).iter().map(|x| x * s).collect();
+        let b = rand_rhs(rng, n, m, true);
+        emit(Case::new(req_gauss(n, m, &a, &b)).tag("gauss").tag("uniform-scale").nontrivial(n >= 2));
+        // diagonal with zeros
+        let mut a = vec![0.0; n * n];
+        for i in 0..n {
+            a[i * n + i] = if rng.chance(1, 3) { 0.0 } else { quant(rng.unit() * 4.0, 10) };
+        }
+        let b = rand_rhs(rng, n, m, true);
+        emit(Case::new(req_gauss(n, m, &a, &b)).tag("gauss").tag("diagonal").nontrivial(n >= 2));
+        // Hilbert-like (ill-conditioned SPD)
+        if n >= 2 {
+            let mut a = vec![0.0; n * n];
+            for i in 0..n {
+                for j in 0..n {
+                    a[i * n + j] = 1.0 / ((i + j + 1) as f64);
+                }
+            }
+            let b = rand_rhs(rng, n, m, true);
+            emit(Case::new(req_gauss(n, m, &a, &b)).tag("gauss").tag("hilbert"));
+        }
+    }
+}
+
+fn req_lda(n: usize, p: usize, f: &[f64], decoy: &[bool], perm: &[usize]) -> String {
+    let mut o = Out::new();
+    o.raw("lda").n(n).n(p);
+    for &x in f {
+        o.f64(x);
+    }
+    for &d in decoy {
+        o.b(d);
+    }
+    for &k in perm {
+        o.n(k);
+    }
+    o.finish()
+}
+
+#[derive(Copy, Clone, PartialEq, Debug)]
+enum Variant {
+    Plain,
+    ConstCol,
+    ClassConstCol,
+    Collinear,
+    Scales,
+    Integer,
+    Duplicates,
+}
+
+/// a labelled feature matrix; `None` when the draw is degenerate in a way the generator avoids
+/// on purpose (power-method start almost orthogonal to the class-mean difference)
+fn draw_lda(rng: &mut Rng, n: usize, p: usize, v: Variant, nd: usize) -> Option<(Vec<f64>, Vec<bool>)> {
+    let mut decoy: Vec<bool> = (0..n).map(|i| i < nd).collect();
+    rng.shuffle(&mut decoy);
+    // half of the draws give the DECOY class the higher means, so that the power method comes out
+    // pointing the wrong way and the final sign flip of train() is what orients the direction
+    let inverted = rng.chance(1, 2);
+    let integer = v == Variant::Integer;
+    let mt: Vec<f64> = (0..p).map(|_| if integer { rng.range(2, 6) as f64 } else { 2.0 + 2.0 * rng.unit() }).collect();
+    let md: Vec<f64> = (0..p).map(|_| if integer { rng.range(0, 4) as f64 } else { 1.0 + 2.0 * rng.unit() }).collect();
+    let mut f = vec![0.0; n * p];
+    for i in 0..n {
+        for j in 0..p {
+            let mu = if decoy[i] != inverted { md[j] } else { mt[j] };
+            f[i * p + j] = if integer { mu + rng.range(-2, 2) as f64 } else { quant(mu + 0.7 * gauss01(rng), 16) };
+        }
+    }
+    match v {
+        Variant::ConstCol => {
+            let j = rng.below(p);
+            let c = *rng.pick(&[0.0, 1.0, 2.5, -0.0]);
+            for i in 0..n {
+                f[i * p + j] = c;
+            }
+        }
+        Variant::ClassConstCol => {
+            let j = rng.below(p);
+            for i in 0..n {
+                f[i * p + j] = if decoy[i] { 1.0 } else { 2.0 };
+            }
+        }
+        Variant::Collinear if p >= 2 => {
+            let j = rng.below(p);
+            let k = (j + 1 + rng.below(p - 1)) % p;
+            let (s, c) = (*rng.pick(&[2.0, -1.0, 0.5]), *rng.pick(&[0.0, 1.0]));
+            for i in 0..n {
+                f[i * p + k] = s * f[i * p + j] + c;
+            }
+        }
+        Variant::Scales => {
+            for j in 0..p {
+                let s = 10f64.powi(rng.range(-3, 6) as i32);
+                for i in 0..n {
+                    f[i * p + j] *= s;
+                }
+            }
+        }
+        Variant::Duplicates => {
+            for i in 1..n {
+                if rng.chance(1, 2) {
+                    // copy an earlier row of the same class
+                    if let Some(k) = (0..i).find(|&k| decoy[k] == decoy[i]) {
+                        for j in 0..p {
+                            f[i * p + j] = f[k * p + j];
+                        }
+                    }
+                }
+            }
+        }
+        _ => {}
+    }
+    // avoid starts (overall mean) nearly orthogonal to the class-mean difference: reported separately
+    let (nt, ndc) = (decoy.iter().filter(|&&d| !d).count(), decoy.iter().filter(|&&d| d).count());
+    if nt > 0 && ndc > 0 {
+        let mut xb = vec![0.0; p];
+        let mut dd = vec![0.0; p];
+        for i in 0..n {
+            for j in 0..p {
+                xb[j] += f[i * p + j] / n as f64;
+                dd[j] += if decoy[i] { -f[i * p + j] / ndc as f64 } else { f[i * p + j] / nt as f64 };
+            }
+        }
+        let dot: f64 = xb.iter().zip(&dd).map(|(a, b)| a * b).sum();
+        let na: f64 = xb.iter().map(|a| a * a).sum::<f64>().sqrt();
+        let nb: f64 = dd.iter().map(|a| a * a).sum::<f64>().sqrt();
+        if na > 0.0 && nb > 0.0 && (dot / (na * nb)).abs() < 1e-2 {
+            return None;
+        }
+    }
+    Some((f, decoy))
+}
+
+fn all_perms(n: usize) -> Vec<Vec<usize>> {
+    fn rec(cur: &mut Vec<usize>, used: &mut Vec<bool>, n: usize, out: &mut Vec<Vec<usize>>) {
+        if cur.len() == n {
+            out.push(cur.clone());
+            return;
+        }
+        for i in 0..n {
+            if !used[i] {
+                used[i] = true;
+                cur.push(i);
+                rec(cur, used, n, out);
+                cur.pop();
+                used[i] = false;
+            }
+        }
+    }
+    let mut out = vec![];
+    rec(&mut vec![], &mut vec![false; n], n, &mut out);
+    out
+}
+
+fn gen_lda(rng: &mut Rng, tier: Tier, emit: &mut dyn FnMut(Case)) {
+    let quick = tier == Tier::Quick;
+    // the unit test of linear_discriminant.rs
+    #[rustfmt::skip]
+    let feats = [5., 4., 3., 2., 4., 5., 4., 3., 6., 3., 4., 5., 1., 0., 2., 9., 5., 4., 4., 3., 2., 1., 1., 9.5, 1., 0., 2., 8., 3., 2., -2., 10.];
+    let lab = [false, false, false, true, false, true, true, true];
+    let id8: Vec<usize> = (0..8).collect();
+    emit(Case::new(req_lda(8, 4, &feats, &lab, &id8)).tag("lda").tag("unit-test-example"));
+    let rev8: Vec<usize> = (0..8).rev().collect();
+    emit(Case::new(req_lda(8, 4, &feats, &lab, &rev8)).tag("lda").tag("unit-test-example").tag("perm-random"));
+
+    // all permutations of small inputs
+    let (pn, pk) = if quick { (4usize, 3usize) } else { (6usize, 4usize) };
+    for n in 2..=pn {
+        for rep in 0..pk {
+            let p = 1 + (rep % 3);
+            let v = *rng.pick(&[Variant::Integer, Variant::Plain]);
+            let nd = 1 + rng.below(n - 1);
+            if let Some((f, d)) = draw_lda(rng, n, p, v, nd) {
+                for perm in all_perms(n) {
+                    emit(Case::new(req_lda(n, p, &f, &d, &perm)).tag("lda").tag("perm-all-small").nontrivial(p >= 2));
+                }
+            }
+        }
+    }
+
+    let reps = if quick { 40 } else { 1200 };
+    let (nmax, pmax) = if quick { (30usize, 5usize) } else { (200usize, 8usize) };
+    let variants = [
+        (Variant::Plain, "well-conditioned"),
+        (Variant::ConstCol, "constant-column"),
+        (Variant::ClassConstCol, "classwise-constant-column"),
+        (Variant::Collinear, "collinear-columns"),
+        (Variant::Scales, "column-scales"),
+        (Variant::Integer, "integer-data"),
+        (Variant::Duplicates, "duplicate-rows"),
+    ];
+    for _ in 0..reps {
+        for &(v, tag) in &variants {
+            let n = 2 + rng.below(nmax - 1);
+            let p = 1 + rng.below(pmax);
+            let nd = match rng.below(10) {
+                0 => 1,
+                1 => n - 1,
+                _ => 1 + rng.below(n - 1),
+            };
+            if let Some((f, d)) = draw_lda(rng, n, p, v, nd) {
+                let mut perm: Vec<usize> = (0..n).collect();
+                let shuffled = rng.chance(3, 4);
+                if shuffled {
+                    rng.shuffle(&mut perm);
+                }
+                emit(Case::new(req_lda(n, p, &f, &d, &perm))
+                    .tag("lda")
+                    .tag(tag)
+                    .tag_if(shuffled, "perm-random")
+                    .tag_if(nd == 1 || nd == n - 1, "single-row-class")
+                    .nontrivial(p >= 2));
+            }
+        }
+        // one class empty
+        let n = 1 + rng.below(8);
+        let p = 1 + rng.below(3);
+        if let Some((f, _)) = draw_lda(rng, n, p, Variant::Plain, 0) {
+            let all = rng.chance(1, 2);
+            let d = vec![all; n];
+            let perm: Vec<usize> = (0..n).collect();
+            emit(Case::new(req_lda(n, p, &f, &d, &perm)).tag("lda").tag("one-class-empty").nontrivial(false));
+        }
+    }
+    // the width score_psms uses (20 features), thorough tier only (exact 20x20 rational inverse per case)
+    if !quick {
+        for _ in 0..12 {
+            let n = 40 + rng.below(60);
+            let v = *rng.pick(&[Variant::Plain, Variant::ConstCol, Variant::Scales]);
+            let nd = 5 + rng.below(n - 10);
+            if let Some((f, d)) = draw_lda(rng, n, 20, v, nd) {
+                let mut perm: Vec<usize> = (0..n).collect();
+                rng.shuffle(&mut perm);
+                emit(Case::new(req_lda(n, 20, &f, &d, &perm)).tag("lda").tag("twenty-features").tag("perm-random"));
+            }
+        }
+    }
+    // zero rows / zero features
+    emit(Case::new(req_lda(0, 2, &[], &[], &[])).tag("lda").tag("empty").nontrivial(false));
+    emit(Case::new(req_lda(2, 0, &[], &[true, false], &[1, 0])).tag("lda").tag("empty").nontrivial(false));
+    // overall mean zero: the power method starts from 0/0
+    emit(Case::new(req_lda(4, 2, &[1., 2., -1., -2., 3., 1., -3., -1.], &[true, false, false, true], &[0, 1, 2, 3]))
+        .tag("lda")
+        .tag("zero-overall-mean"));
+}
+
+#[derive(Clone, Copy)]
+struct Psm {
+    label: i32,
+    rank: u32,
+    charge: u8,
+    hyperscore: f64,
+    delta_next: f64,
+    delta_best: f64,
+    delta_mass: f32,
+    isotope_error: f32,
+    average_ppm: f32,
+    poisson: f64,
+    matched_intensity_pct: f32,
+    matched_peaks: u32,
+    longest_b: u32,
+    longest_y: u32,
+    peptide_len: usize,
+    missed_cleavages: u8,
+    aligned_rt: f32,
+    ims: f32,
+    delta_rt_model: f32,
+    delta_ims_model: f32,
+    longest_y_pct: f32,
+}
+
+fn draw_psm(rng: &mut Rng, decoy: bool, with_ims: bool) -> Psm {
+    let good = !decoy && rng.chance(2, 3);
+    let peptide_len = 7 + rng.below(24);
+    let longest_y = if good { 2 + rng.below(peptide_len - 2) } else { rng.below(4) } as u32;
+    let longest_b = if good { 1 + rng.below(peptide_len / 2) } else { rng.below(3) } as u32;
+    let matched = longest_y + longest_b + rng.below(4) as u32;
+    let hyperscore = if good { 25.0 + 30.0 * rng.unit() } else { 8.0 + 14.0 * rng.unit() };
+    let best = hyperscore + if rng.chance(1, 3) { 5.0 * rng.unit() } else { 0.0 };
+    Psm {
+        label: if decoy { -1 } else { 1 },
+        rank: 1 + rng.below(2) as u32,
+        charge: 2 + rng.below(3) as u8,
+        hyperscore,
+        delta_next: hyperscore * rng.unit() * 0.5,
+        delta_best: best - hyperscore,
+        delta_mass: (gauss01(rng) * if good { 2.0 } else { 6.0 }) as f32,
+        isotope_error: if rng.chance(1, 5) { 1.00335 } else { 0.0 },
+        average_ppm: (gauss01(rng) * 4.0) as f32,
+        poisson: -(if good { 4.0 + 12.0 * rng.unit() } else { 0.3 + 3.0 * rng.unit() }),
+        matched_intensity_pct: (if good { 20.0 + 60.0 * rng.unit() } else { 15.0 * rng.unit() }) as f32,
+        matched_peaks: matched,
+        longest_b,
+        longest_y,
+        peptide_len,
+        missed_cleavages: rng.below(3) as u8,
+        aligned_rt: rng.unit() as f32,
+        ims: if with_ims { (0.6 + 0.6 * rng.unit()) as f32 } else { 0.0 },
+        delta_rt_model: (rng.unit() * if good { 0.1 } else { 0.8 }) as f32,
+        delta_ims_model: if with_ims { (rng.unit() * 0.2) as f32 } else { 0.0 },
+        longest_y_pct: longest_y as f32 / peptide_len as f32,
+    }
+}
+
+fn req_psms(ps: &[Psm]) -> String {
+    let mut o = Out::new();
+    o.raw("scorepsms").n(ps.len());
+    for q in ps {
+        o.n(q.label).n(q.rank).n(q.charge).f64(q.hyperscore).f64(q.delta_next).f64(q.delta_best);
+        o.f32(q.delta_mass).f32(q.isotope_error).f32(q.average_ppm).f64(q.poisson).f32(q.matched_intensity_pct);
+        o.n(q.matched_peaks).n(q.longest_b).n(q.longest_y).n(q.peptide_len).n(q.missed_cleavages);
+        o.f32(q.aligned_rt).f32(q.ims).f32(q.delta_rt_model).f32(q.delta_ims_model).f32(q.longest_y_pct);
+    }
+    o.finish()
+}
+
+fn gen_psms(rng: &mut Rng, tier: Tier, emit: &mut dyn FnMut(Case)) {
+    let quick = tier == Tier::Quick;
+    let reps = if quick { 25 } else { 400 };
+    let nmax = if quick { 80 } else { 400 };
+    for _ in 0..reps {
+        let n = 4 + rng.below(nmax - 3);
+        let with_ims = rng.chance(1, 3);
+        let rate = *rng.pick(&[10u32, 30, 50]);
+        let mut ps: Vec<Psm> = (0..n).map(|_| { let d = rng.chance(rate, 100); draw_psm(rng, d, with_ims) }).collect();
+        ps[0].label = 1;
+        ps[1].label = -1;
+        ps[2].label = 1;
+        ps[3].label = -1;
+        emit(Case::new(req_psms(&ps)).tag("scorepsms").tag("realistic"));
+        // small realistic sets (few PSMs per class; every class has at least two members)
+        for _ in 0..2 {
+            let n = 6 + rng.below(14);
+            let mut small: Vec<Psm> = (0..n).map(|i| draw_psm(rng, i % 3 == 1, with_ims)).collect();
+            if rng.chance(1, 2) {
+                // constant charge / rank columns, as in a single-charge-state run
+                for q in small.iter_mut() {
+                    q.charge = 2;
+                    q.rank = 1;
+                }
+            }
+            rng.shuffle(&mut small);
+            emit(Case::new(req_psms(&small)).tag("scorepsms").tag("realistic").tag("small-set"));
+        }
+        // two decoys among targets
+        {
+            let n = 8 + rng.below(20);
+            let mut few: Vec<Psm> = (0..n).map(|i| draw_psm(rng, i < 2, with_ims)).collect();
+            rng.shuffle(&mut few);
+            emit(Case::new(req_psms(&few)).tag("scorepsms").tag("two-decoys"));
+        }
+        // one class empty
+        let keep = if rng.chance(1, 2) { 1 } else { -1 };
+        let one: Vec<Psm> = ps.into_iter().filter(|q| q.label == keep).collect();
+        emit(Case::new(req_psms(&one)).tag("scorepsms").tag("one-class-empty").nontrivial(false));
+        // a non-finite field in one record
+        let n = 6 + rng.below(30);
+        let mut ps: Vec<Psm> = (0..n).map(|i| draw_psm(rng, i % 3 == 0, with_ims)).collect();
+        let k = rng.below(n);
+        let which = rng.below(6);
+        match which {
+            0 => ps[k].hyperscore = f64::NAN,
+            1 => ps[k].delta_next = f64::NAN,
+            2 => ps[k].average_ppm = f32::NAN,
+            3 => ps[k].delta_rt_model = f32::NAN,
+            4 => ps[k].hyperscore = f64::INFINITY,
+            _ => ps[k].aligned_rt = f32::INFINITY,
+        }
+        emit(Case::new(req_psms(&ps)).tag("scorepsms").tag("non-finite-feature"));
+        // hyperscore below -1: ln_1p gives NaN
+        let mut ps: Vec<Psm> = (0..n).map(|i| draw_psm(rng, i % 2 == 0, with_ims)).collect();
+        ps[k].hyperscore = -1.5;
+        emit(Case::new(req_psms(&ps)).tag("scorepsms").tag("ln1p-domain"));
+        // single decoy / single target
+        let mut ps: Vec<Psm> = (0..n).map(|_| draw_psm(rng, false, with_ims)).collect();
+        ps[k] = draw_psm(rng, true, with_ims);
+        emit(Case::new(req_psms(&ps)).tag("scorepsms").tag("single-decoy"));
+        // identical records (all features constant)
+        let one = draw_psm(rng, false, with_ims);
+        let mut o: Vec<Psm> = Vec::new();
+        for i in 0..(4 + rng.below(6)) {
+            o.push(Psm { label: if i % 2 == 0 { 1 } else { -1 }, ..one });
+        }
+        emit(Case::new(req_psms(&o)).tag("scorepsms").tag("identical-records"));
+    }
+    emit(Case::new(req_psms(&[])).tag("scorepsms").tag("empty").nontrivial(false));
+    let mut r = rng.fork();
+    emit(Case::new(req_psms(&[draw_psm(&mut r, false, false)])).tag("scorepsms").tag("single-record").nontrivial(false));
+    emit(Case::new(req_psms(&[draw_psm(&mut r, false, false), draw_psm(&mut r, true, false)])).tag("scorepsms").tag("two-records"));
+}
+
+/// Small default-on streams of the three KNOWN finding families (known_findings.json:
+/// C15-silently-wrong-singular-illscaled, C15-start-orthogonal, C15-tiny-scale-early-stop) and of the
+/// two observation families (spurious solver failure on block-diagonal SPD: verdict ok; fallback with
+/// poisson = -inf, which scoring.rs can no longer produce: verdict na).
+fn gen_finding_families(rng: &mut Rng, tier: Tier, emit: &mut dyn FnMut(Case)) {
+    let reps = if tier == Tier::Quick { 12 } else { 150 };
+    for _ in 0..reps {
+        // block-diagonal SPD: an SPD block + an uncoupled positive diagonal entry (exact zeros)
+        let n = 2 + rng.below(4);
+        let blk = gram(rng, n, n + 1, 0.5, true);
+        let mut a = vec![0.0; (n + 1) * (n + 1)];
+        for i in 0..n {
+            for j in 0..n {
+                a[i * (n + 1) + j] = blk[i * n + j];
+            }
+        }
+        a[n * (n + 1) + n] = 1.0 + rng.below(3) as f64;
+        let b = rand_rhs(rng, n + 1, 1, true);
+        emit(Case::new(req_gauss(n + 1, 1, &a, &b)).tag("gauss").tag("observation").tag("block-diagonal-spd"));
+        // exactly singular integer PSD matrix at a scale that absorbs the first regularisers
+        let n2 = 2 + rng.below(4);
+        let s2 = *rng.pick(&[1e9, 1e12]);
+        let a2: Vec<f64> = gram(rng, n2, n2 - 1, 0.0, true).iter().map(|x| x * s2).collect();
+        let b2 = rand_rhs(rng, n2, 1, true);
+        emit(Case::new(req_gauss(n2, 1, &a2, &b2)).tag("gauss").tag("known-finding-family").tag("singular-psd-huge-scale"));
+        // LDA with the overall mean orthogonal to the class-mean difference (mirror-symmetric classes)
+        let k = 2 + rng.below(4);
+        let mut f = Vec::new();
+        let mut d = Vec::new();
+        for _ in 0..k {
+            let (x, y) = (rng.range(3, 7) as f64, rng.range(0, 2) as f64);
+            f.extend_from_slice(&[x, y]);
+            d.push(false);
+            f.extend_from_slice(&[y, x]);
+            d.push(true);
+        }
+        let perm: Vec<usize> = (0..2 * k).collect();
+        emit(Case::new(req_lda(2 * k, 2, &f, &d, &perm)).tag("lda").tag("known-finding-family").tag("start-orthogonal"));
+        // LDA on features of order 1e-9
+        if let Some((f, d)) = draw_lda(rng, 12, 2, Variant::Plain, 5) {
+            let f: Vec<f64> = f.iter().map(|x| x * 1e-9).collect();
+            let perm: Vec<usize> = (0..12).collect();
+            emit(Case::new(req_lda(12, 2, &f, &d, &perm)).tag("lda").tag("known-finding-family").tag("tiny-scale"));
+        }
+        // forced fallback with poisson = -inf
+        let mut ps: Vec<Psm> = (0..3 + rng.below(5)).map(|_| draw_psm(rng, false, false)).collect();
+        ps[0].poisson = f64::NEG_INFINITY;
+        emit(Case::new(req_psms(&ps)).tag("scorepsms").tag("observation").tag("fallback-neg-inf-poisson").nontrivial(false));
+    }
+}
+
+pub fn gen(rng: &mut Rng, tier: Tier, emit: &mut dyn FnMut(Case)) {
+    let mut r = rng.fork();
+    gen_finding_families(&mut r, tier, emit);
+    gen_gauss(rng, tier, emit);
+    gen_lda(rng, tier, emit);
+    gen_psms(rng, tier, emit);
 }
